@@ -225,7 +225,7 @@ theorem names_entry_stable {S S' : St} {l : Label} {p t : Nat} (hR : Reachable S
   | done n => simp only [step] at h; (repeat' split at h) <;> (try cases h) <;> exact Or.inl hn
   | del n => simp only [step] at h; (repeat' split at h) <;> (try cases h) <;> exact Or.inl hn
   | regExist n q => simp only [step] at h; (repeat' split at h) <;> (try cases h) <;> exact Or.inl hn
-  | regRun n q ok => simp only [step] at h; (repeat' split at h) <;> (try cases h) <;> exact Or.inl hn
+  | regRun n q k ok => simp only [step] at h; (repeat' split at h) <;> (try cases h) <;> exact Or.inl hn
   | regOwn n q => simp only [step] at h; (repeat' split at h) <;> (try cases h) <;> exact Or.inl hn
   | closeFin n q => simp only [step] at h; (repeat' split at h) <;> (try cases h) <;> exact Or.inl hn
 
@@ -377,7 +377,7 @@ theorem del_removes_only_self {S S' : St} {o r : Nat} (h : step S (.del o) = som
 def delUnguarded (S : St) (o : Nat) : St := { S with byRun := S.byRun.set (S.s o).rid none }
 
 def reloginTrace : List Label :=
-  [.login 1 7 true, .add 1, .start 1, .regExist 1 5, .regRun 1 5 true, .regAdd 1 5, .regOwn 1 5,
+  [.login 1 7 true, .add 1, .start 1, .regExist 1 5, .regRun 1 5 .plain true, .regAdd 1 5, .regOwn 1 5,
    .login 2 7 false, .add 2, .dispDone 1, .drain 1, .closeProxy 1 5, .done 1, .waitOld 2, .start 2]
 
 def reloginState : St := (run init reloginTrace).getD init
@@ -549,6 +549,12 @@ structure Obs where
   run : List (Nat × Nat)
   names : List (Nat × Nat)
   acked : List Nat := []             -- sessions whose client has RECEIVED the LoginResp (the implementation's own acks)
+  P : St := {}                       -- the model's bookkeeping BEFORE the label (who held which rendez-vous entry)
+  prevVis : List Nat := []           -- visitor.Manager.listeners before the label (names) …
+  vis : List Nat := []               -- … and after it
+  prevNat : List Nat := []           -- nathole.Controller.clientCfgs before …
+  nat : List Nat := []               -- … and after
+  own : List (Nat × Nat) := []       -- (session, name): the keys of ctl.proxies of every session the run-id table designates
 
 def hasKey (l : List (Nat × Nat)) (k : Nat) : Bool := l.any (fun e => e.1 == k)
 
@@ -593,7 +599,69 @@ def holdsOnBase (o : Obs) : Bool :=
   o.prevRun.all (fun e => o.run.contains e || e.1 == o.actorRid) &&
   o.prevRun.all (fun e => !o.isDel || e.2 == o.actor || o.run.contains e)
 
-def holdsOn (o : Obs) : Bool := holdsOnBase o && ackOn o
+/-- the entry's holder (the model's bookkeeping of who ran which proxy) is acknowledged and not torn down -/
+def heldByLive (S : St) (v : Option Nat) : Bool :=
+  match v with
+  | some t => (S.s t).phase.live
+  | none => false
+
+theorem heldByLive_iff (S : St) (v : Option Nat) :
+    heldByLive S v = true ↔ ∃ t, v = some t ∧ (S.s t).phase.live = true := by
+  cases v <;> simp [heldByLive]
+
+/-- a key of a session's own table is a name that session registered: the name table says `p ↦ m`, unless the
+    session is just closing `p` (between `pxyManager.Del` and `delete(ctl.proxies, …)`) or already in its teardown -/
+def ownKeyOK (S : St) (names : List (Nat × Nat)) (e : Nat × Nat) : Bool :=
+  !(decide ((S.s e.1).phase = .running) || decide ((S.s e.1).phase = .dispDone)) ||
+    decide ((S.s e.1).hp = .closing e.2) || names.contains (e.2, e.1)
+
+/-- **the incumbent keeps working / nothing leaks**, evaluated on the implementation's own rendez-vous tables
+    (`visitor.Manager.VerifNames`, `nathole.Controller.VerifClients`) and own tables (`VerifAuthSessions`) before
+    and after a label: an entry disappears only by an action of the session that holds it (`vis_entry_stable`,
+    `nat_entry_stable`: never by somebody else's refused registration, close request or teardown), appears only
+    for the actor, is held by an acknowledged, not torn down session (`entry_holder_open`,
+    `teardown_releases_all`); and every key of an own table is a name the session stands under in the name table -/
+def resOn (o : Obs) : Bool :=
+  o.prevVis.all (fun p => o.vis.contains p || o.P.vis.get p == some o.actor) &&
+  o.prevNat.all (fun p => o.nat.contains p || o.P.nat.get p == some o.actor) &&
+  o.vis.all (fun p => o.prevVis.contains p || o.S.vis.get p == some o.actor) &&
+  o.nat.all (fun p => o.prevNat.contains p || o.S.nat.get p == some o.actor) &&
+  o.vis.all (fun p => heldByLive o.S (o.S.vis.get p)) &&
+  o.nat.all (fun p => heldByLive o.S (o.S.nat.get p)) &&
+  o.own.all (fun e => ownKeyOK o.S o.names e)
+
+def ResSpec (o : Obs) : Prop :=
+  (∀ p ∈ o.prevVis, p ∈ o.vis ∨ o.P.vis.get p = some o.actor) ∧
+  (∀ p ∈ o.prevNat, p ∈ o.nat ∨ o.P.nat.get p = some o.actor) ∧
+  (∀ p ∈ o.vis, p ∈ o.prevVis ∨ o.S.vis.get p = some o.actor) ∧
+  (∀ p ∈ o.nat, p ∈ o.prevNat ∨ o.S.nat.get p = some o.actor) ∧
+  (∀ p ∈ o.vis, ∃ t, o.S.vis.get p = some t ∧ (o.S.s t).phase.live = true) ∧
+  (∀ p ∈ o.nat, ∃ t, o.S.nat.get p = some t ∧ (o.S.s t).phase.live = true) ∧
+  (∀ e ∈ o.own, ((o.S.s e.1).phase = .running ∨ (o.S.s e.1).phase = .dispDone) →
+      (o.S.s e.1).hp ≠ .closing e.2 → (e.2, e.1) ∈ o.names)
+
+theorem resOn_sound (o : Obs) : resOn o = true ↔ ResSpec o := by
+  simp only [resOn, ResSpec, Bool.and_eq_true, List.all_eq_true, Bool.or_eq_true, List.contains_iff_mem,
+    beq_iff_eq, heldByLive_iff, ownKeyOK, Bool.not_eq_true', decide_eq_true_eq, Bool.or_eq_false_iff,
+    decide_eq_false_iff_not]
+  constructor
+  · rintro ⟨⟨⟨⟨⟨⟨h1, h2⟩, h3⟩, h4⟩, h5⟩, h6⟩, h7⟩
+    refine ⟨h1, h2, h3, h4, h5, h6, ?_⟩
+    intro e he hp hc
+    rcases h7 e he with (h | h) | h
+    · exact absurd hp (by rintro (a | a); exact h.1 a; exact h.2 a)
+    · exact absurd h hc
+    · exact h
+  · rintro ⟨h1, h2, h3, h4, h5, h6, h7⟩
+    refine ⟨⟨⟨⟨⟨⟨h1, h2⟩, h3⟩, h4⟩, h5⟩, h6⟩, ?_⟩
+    intro e he
+    by_cases hp : (o.S.s e.1).phase = .running ∨ (o.S.s e.1).phase = .dispDone
+    · by_cases hc : (o.S.s e.1).hp = .closing e.2
+      · exact Or.inl (Or.inr hc)
+      · exact Or.inr (h7 e he hp hc)
+    · exact Or.inl (Or.inl ⟨fun a => hp (Or.inl a), fun a => hp (Or.inr a)⟩)
+
+def holdsOn (o : Obs) : Bool := holdsOnBase o && ackOn o && resOn o
 
 def SpecBase (o : Obs) : Prop :=
   (∀ e ∈ o.names, (o.S.s e.2).phase.live = true) ∧
@@ -605,7 +673,7 @@ def SpecBase (o : Obs) : Prop :=
   (∀ e ∈ o.prevRun, e ∈ o.run ∨ e.1 = o.actorRid) ∧
   (∀ e ∈ o.prevRun, o.isDel = true → e.2 ≠ o.actor → e ∈ o.run)
 
-def Spec (o : Obs) : Prop := SpecBase o ∧ AckSpec o
+def Spec (o : Obs) : Prop := (SpecBase o ∧ AckSpec o) ∧ ResSpec o
 
 theorem holdsOnBase_sound (o : Obs) : holdsOnBase o = true ↔ SpecBase o := by
   simp only [holdsOnBase, SpecBase, Bool.and_eq_true, List.all_eq_true, Bool.or_eq_true,
@@ -642,7 +710,7 @@ theorem holdsOnBase_sound (o : Obs) : holdsOnBase o = true ↔ SpecBase o := by
       by_cases hne : e.2 = o.actor <;> simp_all
 
 theorem holdsOn_sound (o : Obs) : holdsOn o = true ↔ Spec o := by
-  simp only [holdsOn, Spec, Bool.and_eq_true, holdsOnBase_sound, ackOn_sound]
+  simp only [holdsOn, Spec, Bool.and_eq_true, holdsOnBase_sound, ackOn_sound, resOn_sound]
 
 /-- the model satisfies the acknowledgement clause: on a reachable state, with the model's own started
     sessions as the acknowledged ones and any name table entry of the model, `AckSpec` holds -/
@@ -669,12 +737,12 @@ theorem model_ackSpec {S : St} (hR : Reachable S) (run names : List (Nat × Nat)
 /-- re-login with proxies: after the whole hand-over the run id designates the new session, the old
     one's name is free again and the new session registers it -/
 example :
-    (run init (reloginTrace ++ [.regExist 2 5, .regRun 2 5 true, .regAdd 2 5, .regOwn 2 5, .del 1])).map
+    (run init (reloginTrace ++ [.regExist 2 5, .regRun 2 5 .plain true, .regAdd 2 5, .regOwn 2 5, .del 1])).map
       (fun S => (S.byRun.get 7, S.names.get 5, (S.s 2).own)) = some (some 2, some 2, [5]) := by decide
 
 /-- the new login cannot be acknowledged while the old session still owns a name -/
 example :
-    (run init [.login 1 7 true, .add 1, .start 1, .regExist 1 5, .regRun 1 5 true, .regAdd 1 5, .regOwn 1 5,
+    (run init [.login 1 7 true, .add 1, .start 1, .regExist 1 5, .regRun 1 5 .plain true, .regAdd 1 5, .regOwn 1 5,
                .login 2 7 false, .add 2, .dispDone 1, .drain 1, .waitOld 2]).isNone = true := by decide
 
 /-- three logins at once on one run id: the middle one is replaced before it starts, is started on its
@@ -688,7 +756,7 @@ example :
 /-- two sessions race for one name between `Exist` and `Add`: the second `Add` is refused -/
 example :
     (run init [.login 1 1 true, .add 1, .start 1, .login 2 2 true, .add 2, .start 2,
-               .regExist 1 5, .regExist 2 5, .regRun 1 5 true, .regRun 2 5 true, .regAdd 2 5, .regAdd 1 5,
+               .regExist 1 5, .regExist 2 5, .regRun 1 5 .plain true, .regRun 2 5 .plain true, .regAdd 2 5, .regAdd 1 5,
                .regOwn 2 5]).map (fun S => (S.names.get 5, (S.s 1).hp, (S.s 2).own)) =
       some (some 2, HP.idle, [5]) := by decide
 
